@@ -520,7 +520,15 @@ class Path(Expression):
 
     def __str__(self) -> str:
         it = iter(self.path)
-        buf = [str(next(it))]
+        root = next(it)
+        if isinstance(root, str) and RE_PROPERTY.fullmatch(root):
+            buf = [root]
+        elif isinstance(root, str):
+            # A quoted root segment, like `['some thing']`.
+            buf = [f"[{root!r}]"]
+        else:
+            buf = [f"[{root}]"]
+
         for segment in it:
             if isinstance(segment, Path):
                 buf.append(f"[{segment}]")
